@@ -1,9 +1,9 @@
 package astx
 
 import (
-	"strings"
 	"fmt"
 	"reflect"
+	"strings"
 
 	"github.com/z7zmey/php-parser/pkg/ast"
 	"github.com/z7zmey/php-parser/pkg/position"
@@ -18,6 +18,16 @@ func Marker(tag string, i, j int) []byte {
 // MarkerPre / MarkerSuf wrap every marker in text of the caller's choice (e.g. something that looks like an open or a close
 // tag: the printer derives its mode from the text of the chunks it writes). UnwrapMarkers removes the wrapping from output.
 var MarkerPre, MarkerSuf string
+
+// FreeID is the id given to the free-floating tokens of synthetic nodes (0: T_WHITESPACE).
+var FreeID token.ID
+
+func freeID() token.ID {
+	if FreeID == 0 {
+		return token.T_WHITESPACE
+	}
+	return FreeID
+}
 
 func UnwrapMarkers(out string) string {
 	if MarkerSuf != "" {
@@ -49,12 +59,13 @@ func Leaf(tag string, i, j int) ast.Vertex {
 }
 
 // Build fills a fresh node of the given kind according to spec (indexed like Fields()).
-//   token slot   → token with value T<i> and one free-floating token F<i>
-//   token list   → Items tokens S<i>.<j>, each with free-floating G<i>.<j>
-//   child        → marker leaf N<i>
-//   child list   → Items marker leaves L<i>.<j>
-//   Value        → V<i>
-//   Position     → a recognisable position (line i+1 …)
+//
+//	token slot   → token with value T<i> and one free-floating token F<i>
+//	token list   → Items tokens S<i>.<j>, each with free-floating G<i>.<j>
+//	child        → marker leaf N<i>
+//	child list   → Items marker leaves L<i>.<j>
+//	Value        → V<i>
+//	Position     → a recognisable position (line i+1 …)
 func Build(mk func() ast.Vertex, spec []SlotSpec, child func(i, j int) ast.Vertex) *Built {
 	return BuildTagged(mk, spec, child, "")
 }
@@ -80,12 +91,12 @@ func BuildTagged(mk func() ast.Vertex, spec []SlotSpec, child func(i, j int) ast
 		switch f.Kind {
 		case FTok:
 			fv.Set(reflect.ValueOf(&token.Token{ID: token.ID(60000 + i), Value: Marker(pre+"T", i, 0),
-				FreeFloating: []*token.Token{{ID: token.T_WHITESPACE, Value: Marker(pre+"F", i, 0)}}}))
+				FreeFloating: []*token.Token{{ID: freeID(), Value: Marker(pre+"F", i, 0)}}}))
 		case FToks:
 			var l []*token.Token
 			for j := 0; j < spec[i].Items; j++ {
 				l = append(l, &token.Token{ID: token.ID(61000 + i), Value: Marker(pre+"S", i, j),
-					FreeFloating: []*token.Token{{ID: token.T_WHITESPACE, Value: Marker(pre+"G", i, j)}}})
+					FreeFloating: []*token.Token{{ID: freeID(), Value: Marker(pre+"G", i, j)}}})
 			}
 			if l == nil {
 				l = []*token.Token{}
